@@ -435,6 +435,18 @@ Proof.
   exists s1, (value_body args body), toks, ls'. split; [exact T|]. split; [exact L|exact E].
 Qed.
 
+Lemma exec_play_events_inv ec s args ln s' : ec_keeps events_inv ec ->
+  events_inv s -> exec_play ec s args ln = Ok s' -> events_inv s'.
+Proof.
+  intros Hec H E. apply exec_play_ok in E. destruct E as (Hn & _ & s4 & last & Hp & ->).
+  apply inv_change_cur_track, inv_track_sync. apply inv_upd_cur; [intros t Ht; exact Ht|].
+  change (events_inv (fst (s4, last))).
+  apply (play_parts_inv events_inv ec ln (tr_timepos (cur_track s))) in Hp; [exact Hp| | | |exact H].
+  - intros s0 i _ H0. unfold play_enter. apply inv_upd_cur; [intros t Ht; exact Ht|]. apply inv_change_cur_track, H0.
+  - intros s2 txt toks ls' s3 H2 _ E3. apply Hec in E3; [exact E3|]. apply song_with_ls_inv, H2.
+  - unfold zlen in Hn. lia.
+Qed.
+
 Lemma step_song_events_inv ec : ec_keeps events_inv ec ->
   forall t s s', events_inv s -> step_song ec t s = Ok s' -> events_inv s'.
 Proof.
@@ -477,6 +489,7 @@ Proof.
     intros E. apply step_value_parts in E. destruct E as (s1 & text & toks & ls' & Hs1 & _ & E).
     apply Hec in E; [exact E|]. apply song_with_ls_inv.
     destruct Hs1 as [->|[m ->]]; [exact H|apply inv_add_log, H].
+  - (* TPlay *) intros E. apply (exec_play_events_inv ec s args lineno s' Hec H E).
 Qed.
 
 Theorem exec_f_events_inv steps d toks s s' :
@@ -538,12 +551,24 @@ Proof.
   unfold read_rpn_command. intros H I. repeat brk H;
     injection H as <- <- <- <-; try exact I; eapply read_args_tokens_tb; eassumption.
 Qed.
+Lemma read_play_tb ls s ln ot s' ln' ls' :
+  read_play ls s ln = Ok (ot, s', ln', ls') -> TB ls -> TB ls'.
+Proof.
+  unfold read_play. intros H I. repeat brk H; injection H as <- <- <- <-. eapply read_macro_args_tb; eassumption.
+Qed.
+Lemma read_def_str_tb ls s ln ot s' ln' ls' :
+  read_def_str ls s ln = Ok (ot, s', ln', ls') -> TB ls -> TB ls'.
+Proof.
+  unfold read_def_str. intros H I. repeat brk H;
+    injection H as <- <- <- <-; try exact I; apply tb_add_log, I.
+Qed.
 Lemma read_ext_command_tb ls ttype argt tag1 tag2 s ln ot s' ln' ls' :
   read_ext_command ls ttype argt tag1 tag2 s ln = Ok (ot, s', ln', ls') -> TB ls -> TB ls'.
 Proof.
   unfold read_ext_command. intros H I. repeat brk H;
     try (injection H as ->; first [eapply read_cc_tb; eassumption | eapply read_command_cc_tb; eassumption
-                                  | eapply read_rpn_command_tb; eassumption]);
+                                  | eapply read_rpn_command_tb; eassumption | eapply read_play_tb; eassumption
+                                  | eapply read_def_str_tb; eassumption]);
     injection H as <- <- <- <-; try exact I; eapply read_args_tokens_tb; eassumption.
 Qed.
 
@@ -667,6 +692,23 @@ Proof. intros Ht [H1 _]. split; [exact H1|exact Ht]. Qed.
 Lemma tb_ls_of_song s : dims_inv s -> TB (ls_of_song s).
 Proof. intros [_ H]. exact H. Qed.
 
+Lemma exec_play_dims ec s args ln s' : ec_keeps dims_inv ec ->
+  dims_inv s -> exec_play ec s args ln = Ok s' -> dims_inv s'.
+Proof.
+  intros Hec H E. apply exec_play_ok in E. destruct E as (Hn & Hcur & s4 & last & Hp & ->).
+  apply dims_change_cur_track; [exact Hcur|].
+  assert (H4 : dims_inv s4).
+  { change (dims_inv (fst (s4, last))).
+    apply (play_parts_inv dims_inv ec ln (tr_timepos (cur_track s))) in Hp; [exact Hp| | | |exact H].
+    - intros s0 i Hi H0. unfold play_enter. apply (dims_of_dsig (change_cur_track s0 i) _ (dsig_upd_cur _ _)).
+      apply dims_change_cur_track; assumption.
+    - intros s2 txt toks ls' s3 H2 L E3. apply Hec in E3; [exact E3|]. apply dims_song_with_ls; [|exact H2].
+      apply (lex_tb _ _ _ _ _ L), tb_ls_of_song, H2.
+    - unfold zlen in Hn. lia. }
+  apply (dims_of_dsig s4); [|exact H4].
+  unfold dsig, track_sync, upd_cur. cbn [s_tracks s_timebase s_set_tracks]. rewrite map_length, upd_nth_length. reflexivity.
+Qed.
+
 Lemma step_song_dims ec : ec_keeps dims_inv ec ->
   forall t s s', dims_inv s -> step_song ec t s = Ok s' -> dims_inv s'.
 Proof.
@@ -703,6 +745,7 @@ Proof.
     { destruct Hs1 as [->|[m ->]]; [exact H|apply (dims_of_dsig s _ (dsig_add_log s m) H)]. }
     apply Hec in E; [exact E|]. apply dims_song_with_ls; [|exact H1].
     apply (lex_tb _ _ _ _ _ L), tb_ls_of_song, H1.
+  - (* TPlay *) intros E. apply (exec_play_dims ec s args lineno s' Hec H E).
 Qed.
 
 Theorem exec_f_dims steps d toks s s' :
